@@ -74,6 +74,14 @@ def simple_updates(s):
     return out
 
 
+class PathFact(ast.Expr):
+    """an `if` test taken with a known truth value on this path (behaves like Expr(test))"""
+
+    def __init__(self, test, truth):
+        ast.Expr.__init__(self, value=test)
+        self.truth = truth
+
+
 def body_paths(stmts, upd=()):
     """
     yield (kind, tuple of simple statements executed) for each path through stmts.
@@ -85,8 +93,8 @@ def body_paths(stmts, upd=()):
         return
     s, rest = stmts[0], stmts[1:]
     if isinstance(s, ast.If):
-        for br in (s.body, s.orelse):
-            for k, u in body_paths(br, upd + (ast.Expr(s.test),)):
+        for br, truth in ((s.body, True), (s.orelse, False)):
+            for k, u in body_paths(br, upd + (PathFact(s.test, truth),)):
                 if k == "fall":
                     for x in body_paths(rest, u):
                         yield x
@@ -142,6 +150,153 @@ def _maybe_zero(e):
     return False
 
 
+def _method_fact(path_stmts, upto, base, idx_name, method):
+    """
+    Is it a fact on this path (before statement `upto`) that `<base>[<idx_name>].<method>()` is true,
+    with idx_name not updated in between?  Recognises  ch = S[i]; flag = ch.m(); ... if flag: / elif flag:
+    """
+    alias_of_elem = set()
+    flag_names = set()
+    established = False
+    for s in path_stmts:
+        if s is upto:
+            break
+        if isinstance(s, PathFact):
+            for n in ast.walk(s.value):
+                pass
+            t = s.value
+            if s.truth and (
+                (isinstance(t, ast.Name) and t.id in flag_names)
+                or _is_method_call_on(t, alias_of_elem, base, idx_name, method)
+            ):
+                established = True
+            elif not s.truth and isinstance(t, ast.UnaryOp) and isinstance(t.op, ast.Not):
+                t2 = t.operand
+                if (isinstance(t2, ast.Name) and t2.id in flag_names) or _is_method_call_on(t2, alias_of_elem, base, idx_name, method):
+                    established = True
+            continue
+        if isinstance(s, (ast.Assign, ast.AnnAssign)) and s.value is not None:
+            tg = s.targets if isinstance(s, ast.Assign) else [s.target]
+            for t in tg:
+                if isinstance(t, ast.Name):
+                    alias_of_elem.discard(t.id)
+                    flag_names.discard(t.id)
+                    v = s.value
+                    if (
+                        isinstance(v, ast.Subscript)
+                        and isinstance(v.value, ast.Name)
+                        and v.value.id == base
+                        and isinstance(v.slice, ast.Name)
+                        and v.slice.id == idx_name
+                    ):
+                        alias_of_elem.add(t.id)
+                    elif _is_method_call_on(v, alias_of_elem, base, idx_name, method):
+                        flag_names.add(t.id)
+                    if t.id == idx_name:
+                        established = False
+                        alias_of_elem.clear()
+                        flag_names.clear()
+        elif isinstance(s, ast.AugAssign) and isinstance(s.target, ast.Name) and s.target.id == idx_name:
+            established = False
+            alias_of_elem.clear()
+            flag_names.clear()
+    return established
+
+
+def _is_method_call_on(e, aliases, base, idx_name, method):
+    if not (isinstance(e, ast.Call) and isinstance(e.func, ast.Attribute) and e.func.attr == method and not e.args):
+        return False
+    r = e.func.value
+    if isinstance(r, ast.Name) and r.id in aliases:
+        return True
+    return (
+        isinstance(r, ast.Subscript)
+        and isinstance(r.value, ast.Name)
+        and r.value.id == base
+        and isinstance(r.slice, ast.Name)
+        and r.slice.id == idx_name
+    )
+
+
+def _step_bounds(e, path_stmts, stmt, target):
+    """(lower, upper) bound of a numeric step expression; None = unknown on that side; 'credit' = opaque"""
+    if isinstance(e, ast.Constant) and isinstance(e.value, (int, float)) and not isinstance(e.value, bool):
+        return (e.value, e.value)
+    if isinstance(e, ast.UnaryOp) and isinstance(e.op, ast.USub):
+        b = _step_bounds(e.operand, path_stmts, stmt, target)
+        if b == "credit":
+            return b
+        return (None if b[1] is None else -b[1], None if b[0] is None else -b[0])
+    if isinstance(e, ast.BinOp) and isinstance(e.op, (ast.Add, ast.Sub)):
+        a, b = _step_bounds(e.left, path_stmts, stmt, target), _step_bounds(e.right, path_stmts, stmt, target)
+        if a == "credit" or b == "credit":
+            return "credit"
+        if isinstance(e.op, ast.Sub):
+            b = (None if b[1] is None else -b[1], None if b[0] is None else -b[0])
+        return (
+            None if a[0] is None or b[0] is None else a[0] + b[0],
+            None if a[1] is None or b[1] is None else a[1] + b[1],
+        )
+    if isinstance(e, ast.Call) and call_name(e) in MAYBE_ZERO_CALLS:
+        lo = 0
+        # count_iter_items(takewhile(str.M, S[i:])) >= 1 when S[i].M() is a fact on this path
+        if call_name(e) == "count_iter_items" and e.args and isinstance(e.args[0], ast.Call) and call_name(e.args[0]) == "takewhile":
+            tw = e.args[0]
+            if len(tw.args) == 2:
+                pred, seq = tw.args
+                if (
+                    isinstance(pred, ast.Attribute)
+                    and isinstance(pred.value, ast.Name)
+                    and pred.value.id == "str"
+                    and isinstance(seq, ast.Subscript)
+                    and isinstance(seq.value, ast.Name)
+                    and isinstance(seq.slice, ast.Slice)
+                    and isinstance(seq.slice.lower, ast.Name)
+                    and seq.slice.upper is None
+                    and seq.slice.lower.id == target
+                ):
+                    if _method_fact(path_stmts, stmt, seq.value.id, target, pred.attr):
+                        lo = 1
+        if call_name(e) in ("find", "index"):
+            return (-1, None)
+        return (lo, None)
+    return "credit"
+
+
+def _maybe_identity(target_text, v):
+    """
+    `T = <expr over T>` that may return T unchanged: strip family, slices starting at T.find(..)+k,
+    replace(); a slice with a positive constant lower bound really shrinks T
+    """
+    cur = v
+    seen_self = False
+    while True:
+        if norm_text(cur) == target_text:
+            seen_self = True
+            break
+        if isinstance(cur, ast.Call) and isinstance(cur.func, ast.Attribute) and cur.func.attr in (
+            "strip lstrip rstrip replace lower upper title expandtabs removeprefix removesuffix".split()
+        ):
+            cur = cur.func.value
+            continue
+        if isinstance(cur, ast.Subscript) and isinstance(cur.slice, ast.Slice):
+            lo = cur.slice.lower
+            if isinstance(lo, ast.Constant) and isinstance(lo.value, int) and lo.value >= 1:
+                return False  # T = T[1:] really shrinks
+            cur = cur.value
+            continue
+        return False
+    return seen_self
+
+
+def norm_text(e):
+    """normalised source text"""
+    try:
+        return ast.unparse(e)
+    except Exception:  # pragma: no cover
+        return ""
+
+
 def really_changed(path_stmts, local_names=None):
     """
     Names whose value after one trip along this path may differ from their value after the
@@ -155,6 +310,9 @@ def really_changed(path_stmts, local_names=None):
     """
     changed = set()
     last_def = {}
+    aug_steps = {}
+    plain_seen = set()
+    maybe_same = set()
     for s in path_stmts:
         for n in ast.walk(s):
             if isinstance(n, ast.Call):
@@ -193,19 +351,44 @@ def really_changed(path_stmts, local_names=None):
                     while isinstance(root, (ast.Subscript, ast.Attribute)):
                         root = root.value
                     if isinstance(root, ast.Name):
-                        changed.add(root.id)
+                        if not isinstance(s, ast.AugAssign) and _maybe_identity(norm_text(t), s.value):
+                            maybe_same.add(root.id)
+                        else:
+                            changed.add(root.id)
                     continue
                 for nm in stored_names(t):
                     last_def[nm] = s
+                    aug_steps.setdefault(nm, [])
+                    if isinstance(s, ast.AugAssign) and isinstance(s.op, (ast.Add, ast.Sub)):
+                        aug_steps[nm].append(s)
+                    else:
+                        aug_steps[nm] = None if not isinstance(s, ast.AugAssign) else aug_steps[nm]
+                        if not isinstance(s, ast.AugAssign):
+                            plain_seen.add(nm)
     reads = {}
     for nm, s in last_def.items():
         r = set(names_in(s.value))
         if isinstance(s, ast.AugAssign):
-            if not _maybe_zero(s.value):
+            steps = aug_steps.get(nm)
+            if steps and nm not in plain_seen and all(isinstance(x.op, (ast.Add, ast.Sub)) for x in steps):
+                # net step of all `nm += e` / `nm -= e` on this path, as an interval
+                lo, hi, credit = 0, 0, False
+                for x in steps:
+                    b = _step_bounds(x.value, path_stmts, x, nm)
+                    if b == "credit":
+                        credit = True
+                        break
+                    if isinstance(x.op, ast.Sub):
+                        b = (None if b[1] is None else -b[1], None if b[0] is None else -b[0])
+                    lo = None if lo is None or b[0] is None else lo + b[0]
+                    hi = None if hi is None or b[1] is None else hi + b[1]
+                if credit or (lo is not None and lo >= 1) or (hi is not None and hi <= -1):
+                    changed.add(nm)
+                # else: the net step may be zero -> no credit
+            elif not _maybe_zero(s.value):
                 changed.add(nm)
-            # a possibly-zero step gives no self-reference credit
         else:
-            if nm in r:
+            if nm in r and not _maybe_identity(nm, s.value):
                 changed.add(nm)
         reads[nm] = r
     # loop-carried cycles among plainly assigned names
@@ -486,6 +669,84 @@ def variant(w):
     return None
 
 
+def diverging(w, ancestors_tests):
+    """
+    `!=` exit test against a monotone update with no direction guard: if the start value is already
+    past the bound the loop runs forever. Returns a description or None.
+    """
+    tests = w.test.values if isinstance(w.test, ast.BoolOp) and isinstance(w.test.op, ast.And) else [w.test]
+    grows, shrinks, incs, decs, assigned = set(), set(), set(), set(), set()
+    for n in walk_body(w):
+        if isinstance(n, ast.Call) and isinstance(n.func, ast.Attribute) and isinstance(n.func.value, ast.Name):
+            if n.func.attr in ("append", "insert", "extend", "appendleft", "add"):
+                grows.add(n.func.value.id)
+            elif n.func.attr in ("pop", "remove", "clear", "popleft", "discard", "popitem"):
+                shrinks.add(n.func.value.id)
+        elif isinstance(n, ast.AugAssign) and isinstance(n.target, ast.Name):
+            pos = isinstance(n.value, ast.Constant) and isinstance(n.value.value, (int, float)) and n.value.value > 0
+            if isinstance(n.op, ast.Add) and pos:
+                incs.add(n.target.id)
+            elif isinstance(n.op, ast.Sub) and pos:
+                decs.add(n.target.id)
+            else:
+                assigned.add(n.target.id)
+        elif isinstance(n, (ast.Assign, ast.AnnAssign)):
+            for t in n.targets if isinstance(n, ast.Assign) else [n.target]:
+                assigned.update(stored_names(t))
+        elif isinstance(n, ast.Delete):
+            for t in n.targets:
+                root = t
+                while isinstance(root, (ast.Subscript, ast.Attribute)):
+                    root = root.value
+                if isinstance(root, ast.Name):
+                    shrinks.add(root.id)
+    for t in tests:
+        if not (isinstance(t, ast.Compare) and len(t.ops) == 1 and isinstance(t.ops[0], ast.NotEq)):
+            continue
+        for side, other in ((t.left, t.comparators[0]), (t.comparators[0], t.left)):
+            var, kind = None, None
+            if isinstance(side, ast.Call) and call_name(side) == "len" and side.args and isinstance(side.args[0], ast.Name):
+                var = side.args[0].id
+                if var in grows and var not in shrinks and var not in assigned:
+                    kind = "grows"
+                elif var in shrinks and var not in grows and var not in assigned:
+                    kind = "shrinks"
+            elif isinstance(side, ast.Name):
+                var = side.id
+                if var in incs and var not in decs and var not in assigned:
+                    kind = "increases"
+                elif var in decs and var not in incs and var not in assigned:
+                    kind = "decreases"
+            if kind is None:
+                continue
+            other_names = names_in(other)
+            if other_names & (grows | shrinks | incs | decs | assigned):
+                continue
+            # bounded by an IndexError: the counter indexes a sequence in the test or the body
+            if kind in ("increases", "decreases"):
+                indexed = any(
+                    isinstance(n, ast.Subscript) and isinstance(n.slice, ast.Name) and n.slice.id == var
+                    for n in walk_body(w)
+                )
+                if indexed:
+                    continue
+            # a dominating direction guard: an enclosing test comparing the same two sides with < or >
+            a_txt, b_txt = norm_text(side), norm_text(other)
+            guarded = False
+            for g in ancestors_tests:
+                for c in ast.walk(g):
+                    if isinstance(c, ast.Compare) and len(c.ops) == 1 and isinstance(c.ops[0], (ast.Lt, ast.LtE, ast.Gt, ast.GtE)):
+                        sides = {norm_text(c.left), norm_text(c.comparators[0])}
+                        if a_txt in sides and b_txt in sides:
+                            guarded = True
+            if guarded:
+                continue
+            return "`{}` is the exit test but {} only {}: if it starts past the bound ({}) the loop never ends".format(
+                norm_text(t), var, kind, b_txt
+            )
+    return None
+
+
 def _on_every_path(stmts, ids):
     """does every fall/back path through stmts execute one of the statements `ids`?"""
 
@@ -585,6 +846,15 @@ def run(ctx):
                 ),
                 line=w.lineno,
             )
+            if ok:
+                anc = []
+                p = f.mod.parents.get(w)
+                while p is not None and p is not f.node:
+                    if isinstance(p, (ast.If, ast.While)):
+                        anc.append(p.test)
+                    p = f.mod.parents.get(p)
+                div = diverging(w, anc)
+                ctx.ob("C11.variant", f, head, div is None, div or "", line=w.lineno)
             var = variant(w) if ok else None
             if ok and var is None:
                 unproved.append("{}:{} {} (progress on every path, but no ranking idiom recognised)".format(f.qual, w.lineno, head))
@@ -655,7 +925,7 @@ def _iter_rule(ctx):
                     )
     ctx.count("infinite_iterator_sites", n_inf)
     ctx.count("for_over_name_loops", n_for)
-    ctx.floor("infinite iterator sites", n_inf, 2)
+    ctx.floor("infinite iterator sites", n_inf, 1)
 
 
 def _bounded(index, f, call, par):
